@@ -1,6 +1,7 @@
 package main
 
 import (
+	"fmt"
 	"go/token"
 	"go/types"
 
@@ -102,4 +103,257 @@ func (c *Ctx) frameSwitchFn() *ssa.Function {
 		fn = b.Parent()
 	}
 	return fn
+}
+
+// executorNeverWaitsForHandlers: the frame executor is the only goroutine that delivers responses,
+// stream values and cancels. If it blocks on something that only a finishing handler releases (a
+// semaphore of handler slots taken in the call path and given back in the handler's completion
+// callback), then (a) a handler that itself waits for a frame — a nested reverse call, a stream —
+// can never finish, and (b) when the release is missing on one completion path the connection stops
+// answering for good. So: for every blocking channel operation in the executor's synchronous cone,
+// the opposite operation on the same channel variable must not be performed by code that runs as part
+// of a handler's completion (functions reachable from the dispatcher, including closures handed to it).
+func (c *Ctx) executorNeverWaitsForHandlers(rule string) {
+	p, r := c.P, c.R
+	if r.FnExec == nil || r.FnDisp == nil {
+		c.und(rule, "frame executor / dispatcher", "-", "not resolved")
+		return
+	}
+	dispRegion := map[*ssa.Function]bool{}
+	for _, g := range c.region(r.FnDisp) {
+		dispRegion[g] = true
+	}
+	// functions that run the dispatcher synchronously (a goroutine literal wrapping the handler call):
+	// what they do after — or defer around — that call is part of the handler's completion as well
+	runsDisp := map[*ssa.Function]bool{}
+	for _, inv := range c.dispInvokes() {
+		if _, isCall := inv.(*ssa.Call); isCall {
+			f := inv.Parent()
+			if f != r.FnExec && !inConeOf(p, r.FnExec, f) {
+				runsDisp[f] = true
+			}
+		}
+	}
+	handlerSide := func(g *ssa.Function) bool {
+		seen := map[*ssa.Function]bool{}
+		var up func(f *ssa.Function, d int) bool
+		up = func(f *ssa.Function, d int) bool {
+			if f == nil || seen[f] || d > 8 {
+				return false
+			}
+			seen[f] = true
+			if dispRegion[f] || runsDisp[f] {
+				return true
+			}
+			for _, cs := range p.dynCallers(f) {
+				if up(cs.Parent(), d+1) {
+					return true
+				}
+			}
+			return false
+		}
+		return up(g, 0)
+	}
+	type chop struct {
+		key  interface{}
+		send bool
+		at   ssa.Instruction
+	}
+	collect := func(fns []*ssa.Function, blockingOnly bool) []chop {
+		var out []chop
+		for _, f := range fns {
+			allInstrsRaw(f, func(in ssa.Instruction) {
+				add := func(ch ssa.Value, send bool) {
+					ch = stripConv(ch)
+					var key interface{}
+					if ld, ok := ch.(*ssa.UnOp); ok && ld.Op == token.MUL {
+						key = c.locKey(ld.X)
+					} else {
+						key = c.locKey(ch)
+					}
+					out = append(out, chop{key, send, in})
+				}
+				switch x := in.(type) {
+				case *ssa.Send:
+					add(x.Chan, true)
+				case *ssa.UnOp:
+					if x.Op == token.ARROW {
+						add(x.X, false)
+					}
+				case *ssa.Select:
+					if blockingOnly && !x.Blocking {
+						return
+					}
+					for _, st := range x.States {
+						add(st.Chan, st.Dir == types.SendOnly)
+					}
+				}
+			})
+		}
+		return out
+	}
+	exec := p.cone(r.FnExec)
+	execOps := collect(exec, true)
+	all := collect(p.Funcs, false)
+	n := 0
+	for _, op := range execOps {
+		if p.boundary != nil && p.boundary[op.at] {
+			continue // the executor taking its next frame
+		}
+		if _, isField := op.key.(*types.Var); !isField {
+			if _, isVal := op.key.(ssa.Value); !isVal {
+				continue
+			}
+		}
+		n++
+		construct := fmt.Sprintf("%s: blocking channel operation on the frame executor", fname(op.at.Parent()))
+		var by ssa.Instruction
+		for _, o2 := range all {
+			if o2.key == op.key && o2.send != op.send && handlerSide(o2.at.Parent()) {
+				by = o2.at
+			}
+		}
+		c.check(by == nil, rule, construct, c.ipos(op.at), "not released by handler completion", func() string {
+			if by == nil {
+				return ""
+			}
+			return "the frame executor blocks here until code at " + c.ipos(by) + " runs, which is part of a handler's completion: a handler that waits for a frame itself (a nested reverse call, a stream) can then never finish, and a completion path that skips the release (a call that keeps its context for a channel) leaves the connection unanswered for good"
+		}())
+	}
+	if n == 0 {
+		c.ok(rule, "frame executor", "-", "no blocking channel operation in the executor's cone")
+	}
+}
+
+// descriptorReadAfterResolution: the dispatcher looks the method up by name and, failing that, through
+// the alias table; the local that holds the method descriptor is assigned on both ways. Whatever is
+// decided from the descriptor (does the call keep its context for a channel, how many parameters, which
+// function) must be read after the last assignment: a value computed from the first lookup's result is
+// that of the zero descriptor for every aliased method.
+func (c *Ctx) descriptorReadAfterResolution(rule string) {
+	p, r := c.P, c.R
+	if r.FnDisp == nil {
+		c.und(rule, "dispatcher", "-", "not resolved")
+		return
+	}
+	isDescriptor := func(t types.Type) bool {
+		nt, ok := t.(*types.Named)
+		if !ok || nt.Obj().Pkg() != p.Root.Pkg {
+			return false
+		}
+		st := structOf(nt)
+		if st == nil {
+			return false
+		}
+		hasFn := false
+		for i := 0; i < st.NumFields(); i++ {
+			if isNamed(st.Field(i).Type(), "reflect", "Value") {
+				hasFn = true
+			}
+		}
+		if !hasFn {
+			return false
+		}
+		// it is the element type of a string-keyed table
+		found := false
+		for _, g := range c.region(r.FnDisp) {
+			allInstrsRaw(g, func(in ssa.Instruction) {
+				if lk, ok := in.(*ssa.Lookup); ok {
+					if m, ok := lk.X.Type().Underlying().(*types.Map); ok && m.Elem() == t {
+						found = true
+					}
+				}
+			})
+		}
+		return found
+	}
+	n := 0
+	for _, g := range c.region(r.FnDisp) {
+		allInstrsRaw(g, func(in ssa.Instruction) {
+			al, ok := in.(*ssa.Alloc)
+			if !ok || !isDescriptor(al.Type().(*types.Pointer).Elem()) {
+				return
+			}
+			var stores []ssa.Instruction
+			var reads []ssa.Instruction
+			for _, ref := range *al.Referrers() {
+				switch x := ref.(type) {
+				case *ssa.Store:
+					if x.Addr == ssa.Value(al) {
+						stores = append(stores, x)
+					}
+				case *ssa.FieldAddr:
+					for _, r2 := range *x.Referrers() {
+						if ld, ok := r2.(*ssa.UnOp); ok && ld.Op == token.MUL {
+							reads = append(reads, ld)
+						}
+					}
+				case *ssa.UnOp:
+					if x.Op == token.MUL {
+						reads = append(reads, x)
+					}
+				}
+			}
+			if len(stores) < 2 {
+				return // assigned once: nothing can be read too early
+			}
+			n++
+			construct := fmt.Sprintf("%s: method descriptor read after name and alias resolution", fname(g))
+			isStore := func(x ssa.Instruction) bool {
+				for _, s := range stores {
+					if s == x {
+						return true
+					}
+				}
+				return false
+			}
+			var early ssa.Instruction
+			for _, rd := range reads {
+				if reachFrom(rd, isStore, nil) != nil && early == nil {
+					early = rd
+				}
+			}
+			// a callback of the dispatcher (done(keepCtx)) bound — called or deferred — with a computed argument
+			// while the descriptor can still be re-assigned: the argument was computed from the unresolved descriptor
+			if early == nil {
+				allInstrsRaw(g, func(x ssa.Instruction) {
+					ci, ok := x.(ssa.CallInstruction)
+					if !ok || early != nil {
+						return
+					}
+					if _, isParam := ci.Common().Value.(*ssa.Parameter); !isParam || ci.Common().IsInvoke() {
+						return
+					}
+					computed := false
+					for _, a := range ci.Common().Args {
+						if _, isK := a.(*ssa.Const); !isK {
+							if _, isB := a.Type().Underlying().(*types.Basic); isB {
+								computed = true
+							}
+						}
+					}
+					if computed && reachFrom(x, isStore, nil) != nil {
+						early = x
+					}
+				})
+			}
+			if early != nil {
+				c.bad(rule, construct, c.ipos(early), "the method descriptor is read (or a value computed from it is handed to a callback) here although it can still be re-assigned afterwards (the alias lookup): what is computed from this read — e.g. whether the call keeps its context because it returns a channel — is that of the empty descriptor for every aliased method, so an aliased subscription's context is cancelled as soon as the subscribing call returns")
+			} else {
+				c.ok(rule, construct, c.ipos(al), "every read follows the last assignment")
+			}
+		})
+	}
+	if n == 0 {
+		c.ok(rule, "method descriptor", "-", "the descriptor local is assigned once")
+	}
+}
+
+func inConeOf(p *Prog, root, f *ssa.Function) bool {
+	for _, g := range p.cone(root) {
+		if g == f {
+			return true
+		}
+	}
+	return false
 }
